@@ -39,12 +39,43 @@ func Parse(input string, opts ...opt) (e *expr.Expression, err error) {
 		return e, err
 	}
 
+	if p.defaultField != "" {
+		ex = applyDefaultField(ex, p.defaultField)
+	}
+
 	err = expr.Validate(ex)
 	if err != nil {
 		return e, err
 	}
 
 	return ex, nil
+}
+
+// applyDefaultField scopes every bare term to the default field. A term is bare when it stands alone as
+// the whole query or as an operand of a boolean, prefix or suffix operator. Terms that are already part of
+// a field expression (its value, range boundaries or value list) are never re-scoped.
+func applyDefaultField(e *expr.Expression, field string) *expr.Expression {
+	if e == nil {
+		return e
+	}
+
+	switch e.Op {
+	case expr.Literal, expr.Wild, expr.Regexp:
+		return expr.Eq(expr.Column(field), e)
+	case expr.And, expr.Or:
+		if left, ok := e.Left.(*expr.Expression); ok {
+			e.Left = applyDefaultField(left, field)
+		}
+		if right, ok := e.Right.(*expr.Expression); ok {
+			e.Right = applyDefaultField(right, field)
+		}
+	case expr.Not, expr.Must, expr.MustNot, expr.Boost, expr.Fuzzy:
+		if left, ok := e.Left.(*expr.Expression); ok {
+			e.Left = applyDefaultField(left, field)
+		}
+	}
+
+	return e
 }
 
 type parser struct {
@@ -69,11 +100,6 @@ func (p *parser) parse() (e *expr.Expression, err error) {
 					p.stack[0],
 					reflect.TypeOf(final),
 				)
-			}
-
-			// edge case for a single literal in the expression and a default field specified
-			if final.Op == expr.Literal && p.defaultField != "" {
-				final = expr.Expr(p.defaultField, expr.Equals, final.Left)
 			}
 
 			return final, nil
